@@ -1870,6 +1870,11 @@ type Data struct {
 	mlMu sync.RWMutex // For atomic access of MaxLabel and MaxRepoLabel
 
 	voxelMu sync.Mutex // Only allow voxel-level label mutation ops sequentially.
+
+	// Serializes the label index read-modify-write of the body-level mutations (merge,
+	// renumber, cleave, split): a merge reads the target index, extends it and writes
+	// it back, which is not covered by the short per-shard index locks.
+	bodyMutMu sync.Mutex
 }
 
 // --- Override of DataService interface ---
